@@ -403,6 +403,8 @@ class Gen:
         known = llo is not None
         if kind in "+-":
             rhs, rlo, rhi = self.int_expr(depth - 1)
+            if self.flip(1, 6):
+                rhs, rlo, rhi = lhs, llo, lhi      # identical operands
             if known and rlo is not None:
                 if kind == "+":
                     return f"({lhs} + {rhs})", llo + rlo, lhi + rhi
@@ -586,6 +588,10 @@ class Gen:
                     f", {self.real_expr(depth - 1)}, {self.real_atom()})")
         lhs = self.real_expr(depth - 1)
         if kind in "+-":
+            if self.flip(1, 6):
+                # identical operands: PSyIR node equality is structural, so
+                # sibling operands that compare equal are a special case
+                return f"({lhs} {kind} {lhs})"
             return f"({lhs} {kind} {self.real_expr(depth - 1)})"
         if kind == "*":
             rhs = self.pick(["2.0", "0.5", "(-1.0)", "3.0"]) \
